@@ -61,6 +61,8 @@ def tx_types(ctx):
             f_ = ctx.facts.fn(p_)
             if f_ is not None and f_["kind"] == "fn" and sp.startswith(module) and sp.count("::") == module.count("::") and not f_.get("impl_self"):
                 return False            # free function of the same module
+            if f_ is not None and f_["kind"] == "fn" and sp.startswith("codec::") and not f_.get("impl_self") and f_.get("vis") != "pub":
+                return False            # private free function of the codec shared between modules (`codec::pack_flags`)
             if f_ is not None and f_["kind"] == "closure":
                 return False
             if f_ is not None and f_["kind"] == "fn" and (f_.get("impl_trait") or "").startswith("codec::") and "core::utils::Encoder" in (f_.get("impl_self") or ""):
